@@ -4,7 +4,7 @@
    random.sample is an uninterpreted symbol: the theorem holds for whatever list of positions it returns that is a legal
    draw.  Closed under the global context. *)
 From Coq Require Import String ZArith List Bool Lia Arith.
-From Ticc Require Import Gen.PyRt Gen.G_cluster_maintenance Model.Repop.
+From Ticc Require Import Gen.PyRt Gen.G_cluster_maintenance Model.Repop Proofs.RepopP.
 Import ListNotations.
 
 (* the model state the helpers see, built from a labelling: cluster k has size (size labels k) and members (members labels k) *)
@@ -19,7 +19,113 @@ Definition donor_result (r : option (nat * list nat)) : res (Z * list Z) :=
   | None => Raise "RuntimeError"%string
   end.
 
-(* STATEMENTS (to be proved):
+
+(* ------------------------------------------------------------------ *)
+(* run-time library facts (copied from GenEquivSV.v, set_nth form)     *)
+(* ------------------------------------------------------------------ *)
+
+Lemma py_getitem_nat {A : Type} (l : list A) (k : nat) (d : A) :
+  (k < length l)%nat -> py_getitem l (Z.of_nat k) = Ret (nth k l d).
+Proof.
+  intros Hk. unfold py_getitem, py_len. cbv zeta.
+  assert (E1 : (Z.of_nat k <? 0)%Z = false) by (apply Z.ltb_ge; lia).
+  assert (E2 : (Z.of_nat (length l) <=? Z.of_nat k)%Z = false) by (apply Z.leb_gt; lia).
+  rewrite E1. cbv iota. rewrite E1, E2. cbn [orb]. rewrite Nat2Z.id, (nth_error_nth' l d Hk). reflexivity.
+Qed.
+
+Lemma py_set_index_nat {A : Type} (l : list A) (k : nat) (v : A) :
+  (k < length l)%nat -> py_set_index l (Z.of_nat k) v = Ret (set_nth k v l).
+Proof.
+  intros Hk. unfold py_set_index, py_len. cbv zeta.
+  assert (E1 : (Z.of_nat k <? 0)%Z = false) by (apply Z.ltb_ge; lia).
+  assert (E2 : (Z.of_nat (length l) <=? Z.of_nat k)%Z = false) by (apply Z.leb_gt; lia).
+  rewrite E1. cbv iota. rewrite E1, E2. cbn [orb]. rewrite Nat2Z.id. reflexivity.
+Qed.
+
+Lemma py_getitem_0 {A : Type} (x : A) (l : list A) : py_getitem (x :: l) 0%Z = Ret x.
+Proof.
+  change 0%Z with (Z.of_nat 0). rewrite (py_getitem_nat _ _ x) by (cbn [length]; lia). reflexivity.
+Qed.
+
+Lemma py_len_cons_pos {A : Type} (x : A) (l : list A) : (py_len (x :: l) >? 0)%Z = true.
+Proof. unfold py_len. cbn [length]. apply Z.gtb_lt. lia. Qed.
+
+Lemma set_nth_length {A : Type} (k : nat) (v : A) (l : list A) : length (set_nth k v l) = length l.
+Proof.
+  revert k. induction l as [|a l IH]; intros k; destruct k as [|k]; cbn [set_nth length]; try reflexivity.
+  now rewrite IH.
+Qed.
+
+Lemma set_nth_map {A B : Type} (f : A -> B) (k : nat) (v : A) (l : list A) :
+  map f (set_nth k v l) = set_nth k (f v) (map f l).
+Proof.
+  revert k. induction l as [|a l IH]; intros k; destruct k as [|k]; cbn [set_nth map]; try reflexivity.
+  now rewrite IH.
+Qed.
+
+Lemma nth_set_nth_eq {A : Type} (k : nat) (v d : A) (l : list A) :
+  (k < length l)%nat -> nth k (set_nth k v l) d = v.
+Proof.
+  revert k. induction l as [|a l IH]; intros k Hk; cbn [length] in Hk; [lia|].
+  destruct k as [|k]; cbn [set_nth nth]; [reflexivity|]. apply IH. lia.
+Qed.
+
+Lemma nth_set_nth_neq {A : Type} (k q : nat) (v d : A) (l : list A) :
+  q <> k -> nth q (set_nth k v l) d = nth q l d.
+Proof.
+  revert k q. induction l as [|a l IH]; intros k q Hq; [destruct k; reflexivity|].
+  destruct k as [|k], q as [|q]; cbn [set_nth nth]; try reflexivity; [contradiction|].
+  apply IH. intros E. apply Hq. now rewrite E.
+Qed.
+
+Lemma removelast_map {A B : Type} (f : A -> B) (l : list A) : removelast (map f l) = map f (removelast l).
+Proof.
+  induction l as [|a l IH]; [reflexivity|].
+  destruct l as [|b l]; [reflexivity|]. cbn [map removelast] in IH |- *. now rewrite IH.
+Qed.
+
+Lemma removelast_cons_length {A : Type} (l : list A) (x : A) : length (removelast (x :: l)) = length l.
+Proof.
+  revert x. induction l as [|b l IH]; intros x; [reflexivity|].
+  change (removelast (x :: b :: l)) with (x :: removelast (b :: l)). cbn [length]. now rewrite IH.
+Qed.
+
+Lemma Forall_removelast {A : Type} (P : A -> Prop) (l : list A) : Forall P l -> Forall P (removelast l).
+Proof.
+  induction l as [|a l IH]; intros H; [constructor|].
+  inversion H as [|a' l' Ha Hl]; subst.
+  destruct l as [|b l]; [constructor|].
+  change (removelast (a :: b :: l)) with (a :: removelast (b :: l)). constructor; [exact Ha|apply IH; exact Hl].
+Qed.
+
+(* ------------------------------------------------------------------ *)
+(* the model state                                                     *)
+(* ------------------------------------------------------------------ *)
+
+Lemma clusters_getitem (K m : nat) (labels : list nat) (d : nat) :
+  (d < K)%nat ->
+  py_getitem (rm_clusters (rp_of K m labels)) (Z.of_nat d)
+  = Ret (mk_rp_cluster (Z.of_nat (size labels d)) (map Z.of_nat (members labels d))).
+Proof.
+  intros Hd. cbn [rp_of rm_clusters].
+  set (f := fun k => mk_rp_cluster (Z.of_nat (size labels k)) (map Z.of_nat (members labels k))).
+  rewrite (py_getitem_nat _ _ (f 0%nat)) by (rewrite map_length, seq_length; exact Hd).
+  rewrite map_nth, seq_nth by exact Hd. reflexivity.
+Qed.
+
+Lemma geb_nat (s m : nat) : (Z.of_nat s >=? 2 * Z.of_nat m)%Z = Nat.leb (2 * m) s.
+Proof.
+  rewrite Z.geb_leb. destruct (Nat.leb_spec (2 * m) s) as [H|H]; [apply Z.leb_le|apply Z.leb_gt]; lia.
+Qed.
+
+Lemma ltb_nat (s m : nat) : (Z.of_nat s <? 3 * Z.of_nat m)%Z = Nat.ltb s (3 * m).
+Proof.
+  destruct (Nat.ltb_spec s (3 * m)) as [H|H]; [apply Z.ltb_lt|apply Z.ltb_ge]; lia.
+Qed.
+
+(* ------------------------------------------------------------------ *)
+(* 1. _find_point_donor                                                *)
+(* ------------------------------------------------------------------ *)
 
 (* 1. with enough fuel (one more than the number of candidates) the translated donor search is the model's, including the
       RuntimeError when no candidate holds 2m points *)
@@ -27,15 +133,157 @@ Theorem g_find_point_donor_eq (K m : nat) (labels rem : list nat) (fuel : nat) :
   Forall (fun d => (d < K)%nat) rem -> (length rem < fuel)%nat ->
   g_find_point_donor fuel (rp_of K m labels) (map Z.of_nat rem)
   = donor_result (find_donor fuel m labels rem).
+Proof.
+  revert rem. induction fuel as [|f IH]; intros rem HF HL; [inversion HL|].
+  destruct rem as [|d rest].
+  - reflexivity.
+  - inversion HF as [|d' rest' Hd Hrest]; subst d' rest'.
+    unfold g_find_point_donor. cbn [py_while map find_donor].
+    rewrite py_len_cons_pos. cbn [bind].
+    rewrite py_getitem_0. cbn [bind].
+    rewrite (clusters_getitem K m labels d Hd). cbn [bind rc_size].
+    cbn [rp_of rm_arguments ra_min_cluster_size].
+    rewrite geb_nat, ltb_nat.
+    destruct (Nat.leb (2 * m) (size labels d)) eqn:E2.
+    + destruct (Nat.ltb (size labels d) (3 * m)) eqn:E3; cbn [py_pop_first bind donor_result map]; reflexivity.
+    + cbn [py_pop_last bind].
+      change (Z.of_nat d :: map Z.of_nat rest) with (map Z.of_nat (d :: rest)).
+      rewrite removelast_map.
+      apply (IH (removelast (d :: rest))).
+      * apply Forall_removelast. exact HF.
+      * rewrite removelast_cons_length. cbn [length] in HL. lia.
+Qed.
 
-(* 2. the translated move is the model's, for every draw of m distinct positions below the donor's size *)
+(* ------------------------------------------------------------------ *)
+(* 2. _move_random_points                                              *)
+(* ------------------------------------------------------------------ *)
+
+(* the model's relabelling of the positions in [ch] *)
+Definition relab (recipient : nat) (ch cur : list nat) : list nat :=
+  map (fun ip => if existsb (Nat.eqb (fst ip)) ch then recipient else snd ip)
+      (combine (seq 0 (length cur)) cur).
+
+Lemma relab_length (r : nat) (ch cur : list nat) : length (relab r ch cur) = length cur.
+Proof. unfold relab. rewrite map_length, combine_length, seq_length. apply Nat.min_id. Qed.
+
+Lemma relab_nth (r : nat) (ch cur : list nat) (i : nat) :
+  (i < length cur)%nat ->
+  nth i (relab r ch cur) 0%nat = if existsb (Nat.eqb i) ch then r else nth i cur 0%nat.
+Proof.
+  intros Hi. unfold relab.
+  set (f := fun ip : nat * nat => if existsb (Nat.eqb (fst ip)) ch then r else snd ip).
+  rewrite (nth_indep _ 0%nat (f (0%nat, 0%nat)))
+    by (rewrite map_length, combine_length, seq_length, Nat.min_id; exact Hi).
+  rewrite map_nth, combine_nth by apply seq_length.
+  rewrite seq_nth by exact Hi. reflexivity.
+Qed.
+
+(* the body of the relabelling loop, as generated *)
+Definition move_body (donor recipient : Z) (new_point_labels : list Z) (point_id : Z) : res (list Z) :=
+  t4_ <- py_getitem new_point_labels point_id ;;
+  if (t4_ =? donor)%Z then
+    new_point_labels <- py_set_index new_point_labels point_id recipient ;;
+    Ret new_point_labels
+  else Raise "AssertionError"%string.
+
+Lemma fold_relabel (donor recipient : nat) (ch : list nat) : forall cur : list nat,
+  donor = recipient \/ NoDup ch ->
+  (forall p, In p ch -> (p < length cur)%nat /\ nth p cur 0%nat = donor) ->
+  foldM (move_body (Z.of_nat donor) (Z.of_nat recipient)) (map Z.of_nat ch) (map Z.of_nat cur)
+  = Ret (map Z.of_nat (relab recipient ch cur)).
+Proof.
+  induction ch as [|p ch IH]; intros cur Hnd Hin.
+  - cbn [map foldM]. f_equal. f_equal.
+    apply nth_ext with (d := 0%nat) (d' := 0%nat); [now rewrite relab_length|].
+    intros i Hi. rewrite relab_nth by exact Hi. reflexivity.
+  - destruct (Hin p (or_introl eq_refl)) as [Hp Hlab].
+    cbn [map foldM]. unfold move_body at 1.
+    rewrite (py_getitem_nat _ _ (Z.of_nat 0)) by (rewrite map_length; exact Hp). cbn [bind].
+    rewrite map_nth, Hlab, Z.eqb_refl.
+    rewrite py_set_index_nat by (rewrite map_length; exact Hp). cbn [bind].
+    rewrite <- set_nth_map.
+    rewrite IH.
+    + f_equal. f_equal.
+      apply nth_ext with (d := 0%nat) (d' := 0%nat); [now rewrite !relab_length, set_nth_length|].
+      intros i Hi. rewrite relab_length, set_nth_length in Hi.
+      rewrite !relab_nth by (rewrite ?set_nth_length; exact Hi).
+      cbn [existsb]. destruct (Nat.eqb_spec i p) as [E|E]; cbn [orb].
+      * subst i. destruct (existsb (Nat.eqb p) ch); [reflexivity|]. apply nth_set_nth_eq. exact Hp.
+      * rewrite nth_set_nth_neq by exact E. reflexivity.
+    + destruct Hnd as [Hdr|Hnd]; [left; exact Hdr|right]. inversion Hnd; assumption.
+    + intros q Hq. rewrite set_nth_length.
+      destruct (Hin q (or_intror Hq)) as [Hq1 Hq2]. split; [exact Hq1|].
+      destruct (Nat.eq_dec q p) as [E|E].
+      * subst q. rewrite nth_set_nth_eq by exact Hp.
+        destruct Hnd as [Hdr|Hnd]; [now symmetry|]. inversion Hnd; contradiction.
+      * rewrite nth_set_nth_neq by exact E. exact Hq2.
+Qed.
+
+(* the general form: the draw may repeat positions only when donor and recipient coincide *)
+Theorem g_move_random_points_eq_gen (sample : Z -> Z -> list Z) (K m : nat) (labels : list nat) (donor recipient : nat) (idxs : list nat) :
+  (donor < K)%nat ->
+  sample (Z.of_nat (size labels donor)) (Z.of_nat m) = map Z.of_nat idxs ->
+  Forall (fun i => (i < size labels donor)%nat) idxs ->
+  donor = recipient \/ NoDup idxs ->
+  g_move_random_points sample (rp_of K m labels) (Z.of_nat donor) (Z.of_nat recipient)
+  = Ret (map Z.of_nat (move labels donor recipient idxs)).
+Proof.
+  intros HK Hsample Hlt Hnd.
+  unfold g_move_random_points.
+  rewrite (clusters_getitem K m labels donor HK).
+  cbn [bind rc_member_points rp_of rm_arguments ra_min_cluster_size rm_point_labels].
+  set (mem := members labels donor).
+  assert (Hlen : py_len (map Z.of_nat mem) = Z.of_nat (size labels donor)).
+  { unfold py_len, mem. now rewrite map_length, members_length. }
+  rewrite Hlen, Hsample.
+  assert (E : mapM (fun i => t2_ <- py_getitem (map Z.of_nat mem) i ;; Ret t2_) (map Z.of_nat idxs)
+              = Ret (map Z.of_nat (map (fun i => nth i mem 0%nat) idxs))).
+  { rewrite (mapM_pure _ (fun z => Z.of_nat (nth (Z.to_nat z) mem 0%nat))).
+    - f_equal. rewrite !map_map. apply map_ext. intros i. now rewrite Nat2Z.id.
+    - intros z Hz. apply in_map_iff in Hz. destruct Hz as [i [Hz Hi]]. subst z.
+      rewrite Forall_forall in Hlt. specialize (Hlt i Hi).
+      rewrite (py_getitem_nat _ _ (Z.of_nat 0)) by (unfold mem; rewrite map_length, members_length; exact Hlt).
+      cbn [bind]. now rewrite map_nth, Nat2Z.id. }
+  rewrite E. cbn [bind].
+  change (foldM _ ?l ?s) with (foldM (move_body (Z.of_nat donor) (Z.of_nat recipient)) l s).
+  rewrite (fold_relabel donor recipient (map (fun i => nth i mem 0%nat) idxs) labels).
+  - reflexivity.
+  - destruct Hnd as [Hdr|Hnd]; [left; exact Hdr|right].
+    apply NoDup_map_nth; [apply members_NoDup|exact Hnd|].
+    unfold mem. rewrite members_length. exact Hlt.
+  - intros p Hp. apply in_map_iff in Hp. destruct Hp as [i [Hp Hi]]. subst p.
+    apply members_lt. apply nth_In. unfold mem. rewrite members_length.
+    rewrite Forall_forall in Hlt. apply Hlt. exact Hi.
+Qed.
+
+(* 2. ORIGINAL STATEMENT (false as written: a draw that repeats a position makes the translated loop visit a point that
+      already carries the recipient's label, so the `assert` fails, while the model's move ignores repetitions):
+
 Theorem g_move_random_points_eq (sample : Z -> Z -> list Z) (K m : nat) (labels : list nat) (donor recipient : nat) (idxs : list nat) :
   (donor < K)%nat ->
   sample (Z.of_nat (size labels donor)) (Z.of_nat m) = map Z.of_nat idxs ->
   Forall (fun i => (i < size labels donor)%nat) idxs ->
   g_move_random_points sample (rp_of K m labels) (Z.of_nat donor) (Z.of_nat recipient)
   = Ret (map Z.of_nat (move labels donor recipient idxs)).
-*)
+
+   Counterexample (checked below, `move_counterexample`): K = 4, m = 2, labels = [0;1;1;2;1;1;0;1;2;1;1], donor = 1,
+   recipient = 3, idxs = [0;0], sample = fun _ _ => [0;0]: all three hypotheses hold, the left side is
+   Raise "AssertionError", the right side is Ret [0;3;1;2;1;1;0;1;2;1;1].
+   Corrected statement: the added hypothesis NoDup idxs (a legal draw of random.sample is duplicate-free; draw_ok of
+   Model/Repop.v has it).  The weakest sufficient form, donor = recipient \/ NoDup idxs, is g_move_random_points_eq_gen. *)
+
+(* 2. the translated move is the model's, for every draw of m distinct positions below the donor's size *)
+Theorem g_move_random_points_eq (sample : Z -> Z -> list Z) (K m : nat) (labels : list nat) (donor recipient : nat) (idxs : list nat) :
+  (donor < K)%nat ->
+  sample (Z.of_nat (size labels donor)) (Z.of_nat m) = map Z.of_nat idxs ->
+  Forall (fun i => (i < size labels donor)%nat) idxs ->
+  NoDup idxs ->
+  g_move_random_points sample (rp_of K m labels) (Z.of_nat donor) (Z.of_nat recipient)
+  = Ret (map Z.of_nat (move labels donor recipient idxs)).
+Proof.
+  intros HK Hsample Hlt Hnd.
+  apply (g_move_random_points_eq_gen sample K m labels donor recipient idxs HK Hsample Hlt (or_intror Hnd)).
+Qed.
 
 Definition lab0 : list nat := [0;1;1;2;1;1;0;1;2;1;1].
 Eval vm_compute in g_find_point_donor 5 (rp_of 4 2 lab0) (map Z.of_nat [3;0;1;2]).
@@ -44,3 +292,22 @@ Eval vm_compute in g_find_point_donor 5 (rp_of 4 3 lab0) (map Z.of_nat [3;0;2]).
 Eval vm_compute in donor_result (find_donor 5 3 lab0 [3;0;2]).
 Eval vm_compute in g_move_random_points (fun n k => [5;0]%Z) (rp_of 4 2 lab0) 1 3.
 Eval vm_compute in map Z.of_nat (move lab0 1 3 [5;0]).
+
+(* the original statement 2 fails on a draw with a repeated position *)
+Lemma move_counterexample :
+  let sample := fun _ _ : Z => [0; 0]%Z in
+  (1 < 4)%nat /\
+  sample (Z.of_nat (size lab0 1)) (Z.of_nat 2) = map Z.of_nat [0; 0]%nat /\
+  Forall (fun i => (i < size lab0 1)%nat) [0; 0]%nat /\
+  g_move_random_points sample (rp_of 4 2 lab0) (Z.of_nat 1) (Z.of_nat 3) = Raise "AssertionError"%string /\
+  Ret (map Z.of_nat (move lab0 1 3 [0; 0]%nat)) = Ret [0; 3; 1; 2; 1; 1; 0; 1; 2; 1; 1]%Z.
+Proof.
+  cbv zeta. split; [lia|]. split; [reflexivity|]. split; [repeat constructor|].
+  split; vm_compute; reflexivity.
+Qed.
+Eval vm_compute in g_move_random_points (fun n k => [0;0]%Z) (rp_of 4 2 lab0) 1 3.
+Eval vm_compute in map Z.of_nat (move lab0 1 3 [0;0]).
+
+Print Assumptions g_find_point_donor_eq.
+Print Assumptions g_move_random_points_eq.
+Print Assumptions g_move_random_points_eq_gen.
